@@ -41,7 +41,15 @@ use std::path::{Path, PathBuf};
 use std::sync::{Arc, Mutex};
 use std::time::{Duration, Instant};
 
-const WAIT_TIMEOUT: Duration = Duration::from_secs(60);
+/// "hang" = a wait exceeding 60 s. On an overloaded machine (1-minute load average above twice the
+/// number of CPUs; other people's builds) the limit is stretched in proportion, so that starvation of
+/// the node's threads is not reported as a property violation.
+fn wait_timeout() -> Duration {
+    let cpus = std::thread::available_parallelism().map(|n| n.get()).unwrap_or(1) as f64;
+    let load = std::fs::read_to_string("/proc/loadavg").ok().and_then(|s| s.split(' ').next().and_then(|x| x.parse::<f64>().ok())).unwrap_or(0.0);
+    let factor = if load > 2.0 * cpus { (load / cpus).ceil().min(30.0) } else { 1.0 };
+    Duration::from_secs_f64(60.0 * factor)
+}
 const WINDOW: (u64, u64) = (2, 4);
 const GCELLS: u64 = 32;
 const SIGABRT: i32 = 6;
@@ -416,7 +424,7 @@ impl<'a> Runner<'a> {
             if outstanding == pool {
                 return Ok(());
             }
-            if start.elapsed() > WAIT_TIMEOUT {
+            if start.elapsed() > wait_timeout() {
                 return Err(format!("no quiescence after 60s: handed={} fired={fired} dropped={dropped} orphan_pool={pool}", self.handed));
             }
             std::thread::sleep(step);
@@ -473,10 +481,20 @@ impl<'a> Runner<'a> {
                 if !self.node.controller().verif_process_lonely_block_sync(lb) {
                     return Err("the chain service has gone".into());
                 }
-                return match rx.recv_timeout(WAIT_TIMEOUT) {
-                    Ok(_) => Ok(()),
-                    Err(_) => Err(format!("verify-queue fence not answered after 60s; unfinished={:?}", self.pending_looking())),
-                };
+                let f0 = Instant::now();
+                loop {
+                    match rx.recv_timeout(Duration::from_secs(1)) {
+                        Ok(_) => return Ok(()),
+                        Err(crossbeam_channel::RecvTimeoutError::Disconnected) => {
+                            return Err(format!("the verify-queue fence's callback was dropped without being called (pipeline dead?); unfinished={:?}", self.pending_looking()));
+                        }
+                        Err(crossbeam_channel::RecvTimeoutError::Timeout) => {
+                            if f0.elapsed() > wait_timeout() {
+                                return Err(format!("verify-queue fence not answered after {:?}; unfinished={:?}", f0.elapsed(), self.pending_looking()));
+                            }
+                        }
+                    }
+                }
             }
             let mut last = fmt_line(&[], &self.view());
             let mut since = Instant::now();
@@ -489,7 +507,7 @@ impl<'a> Runner<'a> {
                 } else if since.elapsed() >= Duration::from_millis(50) && !self.my_outstanding_outside_pool() && self.pending_looking().is_empty() {
                     break;
                 }
-                if t0.elapsed() > WAIT_TIMEOUT {
+                if t0.elapsed() > wait_timeout() {
                     return Err(format!("no quiescence (tip = genesis) after 60s; unfinished={:?}", self.pending_looking()));
                 }
             }
@@ -581,7 +599,7 @@ fn child_main(opts: &Opts) -> ! {
     let node = Node::start(&node_dir, consensus, &cfg);
     let t0 = Instant::now();
     while node.controller().is_verifying_unverified_blocks_on_startup() {
-        if t0.elapsed() > WAIT_TIMEOUT {
+        if t0.elapsed() > wait_timeout() {
             logln(&mut log, "hang startup");
             std::process::exit(3);
         }
@@ -670,7 +688,7 @@ fn run_child(env: &ChildEnv, job: &ChildJob) -> ChildExit {
                 };
             }
             None => {
-                if t0.elapsed() > Duration::from_secs(300) {
+                if t0.elapsed() > 5 * wait_timeout() {
                     let _ = ch.kill();
                     let _ = ch.wait();
                     return ChildExit::Timeout;
@@ -1224,7 +1242,7 @@ fn start_node(out: &mut Out, h: &Hist, node_dir: &Path, what: &str) -> Option<No
     };
     let t0 = Instant::now();
     while node.controller().is_verifying_unverified_blocks_on_startup() {
-        if t0.elapsed() > WAIT_TIMEOUT {
+        if t0.elapsed() > wait_timeout() {
             out.oracle_fail("hang", &format!("{what}: InitLoadUnverified did not finish within 60s"));
             std::mem::forget(node);
             return None;
@@ -1627,7 +1645,7 @@ fn one_history(out: &mut Out, opts: &Opts, rng: &mut Rng, base: &Path, hno: u64,
 fn generate(out: &mut Out, opts: &Opts, base: &Path) {
     let mut rng = Rng::new(opts.seed);
     let exe = std::env::current_exe().expect("current_exe");
-    let nh = if opts.thorough() { 20 * opts.scale } else { 2 * opts.scale };
+    let nh = if opts.thorough() { 40 * opts.scale } else { 2 * opts.scale };
     let t0 = Instant::now();
     for hno in 0..nh {
         one_history(out, opts, &mut rng, base, hno, &exe);
